@@ -73,6 +73,10 @@ Fresh == [win |-> -1, used |-> 0, lo |-> 0, hi |-> 0, rs |-> FALSE, stay |-> FAL
 
 MaxOf(a, b) == IF a >= b THEN a ELSE b
 MinOf(a, b) == IF a <= b THEN a ELSE b
+\* TLC integers are 32 bit: window counts and spillover bounds are cut off at a value no history reaches
+\* (a window with a million passes); beyond it the specification only becomes more permissive about blocking
+Big == 1000000
+Cap(n) == MinOf(n, Big)
 
 \* passes a key holding spillover h is granted per window (the code: Ceil((allowed + spillover) * ratio))
 Limit(g, h) == ((A + h) * Pct[g] + 99) \div 100
@@ -89,14 +93,14 @@ Synced(g, s) ==
     THEN [s EXCEPT !.win = j, !.first = j, !.used = 0, !.lo = 0, !.hi = 0, !.rs = FALSE, !.tot = 0,
                    !.stay = (dom = RenewDay)]
     ELSE IF j > s.win
-    THEN LET G == (j - s.win - 1) * A          \* allowance of the windows skipped in between (D1)
+    THEN LET G == Cap(j - s.win - 1) * A     \* allowance of the windows skipped in between (D1)
              left == A - s.used
          IN  [s EXCEPT !.win = j, !.used = 0, !.rs = FALSE, !.stay = (dom = RenewDay),
-                       !.lo = IF dom = RenewDay \/ s.rs THEN 0 ELSE s.lo + left,
+                       !.lo = IF dom = RenewDay \/ s.rs THEN 0 ELSE Cap(s.lo + left),
                        \* on the renewal day: zero at every observed window change (the code), or zero once when
                        \* the day begins and carrying on within it (the other reading of S5)
-                       !.hi = IF dom = RenewDay THEN (IF s.stay THEN s.hi + left + G ELSE G)
-                              ELSE s.hi + left + G]
+                       !.hi = Cap(IF dom = RenewDay THEN (IF s.stay THEN s.hi + left + G ELSE G)
+                                  ELSE s.hi + left + G)]
     ELSE IF s.rs                                \* a renewal day began inside the current window (D2)
     THEN [s EXCEPT !.rs = FALSE, !.stay = (dom = RenewDay), !.lo = MinOf(s.lo, MinLo(g, s.used))]
     ELSE s
@@ -168,9 +172,9 @@ PerWindow == \A g \in Group : st[g].used <= Limit(g, st[g].hi)
 
 \* S3: over the first k windows of a key at most k x allowed requests pass
 KBound == \A g \in Group : (Pct[g] = 100 /\ st[g].win # -1) =>
-              st[g].tot <= (st[g].win - st[g].first + 1) * A
+              st[g].tot <= Cap(st[g].win - st[g].first + 1) * A
 
 \* S3: the spillover never exceeds what the earlier windows really left unused
-SpillReal == \A g \in Group : (Pct[g] = 100 /\ st[g].win # -1) =>
+SpillReal == \A g \in Group : (Pct[g] = 100 /\ st[g].win # -1 /\ st[g].win - st[g].first < Big) =>
               st[g].hi <= (st[g].win - st[g].first) * A - (st[g].tot - st[g].used)
 ================================================================================
